@@ -25,12 +25,18 @@ Numbers are kept as exact rationals of their decimal spelling."""
 import os, re
 from fractions import Fraction
 
-KEYWORDS = {k.upper() for k in """SOLUTION_MASTER_SPECIES SOLUTION_SPECIES PHASES EXCHANGE_MASTER_SPECIES EXCHANGE_SPECIES
-SURFACE_MASTER_SPECIES SURFACE_SPECIES RATES END LLNL_AQUEOUS_MODEL_PARAMETERS NAMED_EXPRESSIONS PITZER SIT ISOTOPES
-ISOTOPE_RATIOS ISOTOPE_ALPHAS CALCULATE_VALUES KNOBS PRINT SELECTED_OUTPUT USER_PUNCH USER_PRINT USER_GRAPH SOLUTION
-SOLUTION_SPREAD TITLE MEAN_GAMMAS GAS_BINARY_PARAMETERS DATABASE INCLUDE$ KINETICS EQUILIBRIUM_PHASES REACTION MIX USE SAVE
-REACTION_TEMPERATURE REACTION_PRESSURE GAS_PHASE SOLID_SOLUTIONS SURFACE EXCHANGE TRANSPORT ADVECTION INVERSE_MODELING
-COPY DELETE DUMP RUN_CELLS NAMED_LOG_K NAMED_ANALYTICAL_EXPRESSION NAMED_ANALYTICAL_EXPRESSIONS""".split()}
+KEYWORDS = {k.upper() for k in """eof end solution_species solution_master_species solution phases pure_phases reaction mix use save
+exchange_species exchange_master_species exchange surface_species surface_master_species surface reaction_temperature
+inverse_modeling gas_phase transport debug selected_output select_output knobs print equilibrium_phases equilibria equilibrium
+pure title comment advection kinetics incremental_reactions incremental rates solution_s user_print user_punch solid_solutions
+solid_solution solution_spread spread_solution selected_out select_out user_graph llnl_aqueous_model_parameters
+llnl_aqueous_model database named_analytical_expression named_analytical_expressions named_expressions named_log_k isotopes
+calculate_values isotope_ratios isotope_alphas copy pitzer sit equilibrium_phase solution_raw exchange_raw surface_raw
+equilibrium_phases_raw kinetics_raw solid_solutions_raw gas_phase_raw reaction_raw mix_raw reaction_temperature_raw dump
+solution_modify equilibrium_phases_modify exchange_modify surface_modify solid_solutions_modify gas_phase_modify kinetics_modify
+delete run_cells reaction_modify reaction_temperature_modify solid_solution_modify reaction_pressure reaction_pressures
+reaction_pressure_raw reaction_pressure_modify rate_parameters_pk rate_parameters_svd rate_parameters_hermanska mean_gammas
+gas_binary_parameters include$""".split()}
 
 KCAL = Fraction(4184, 1000)
 
@@ -252,6 +258,7 @@ def parse_db(path):
     masters, species, phases, named = {}, {}, {}, {}
     order = []
     problems = []
+    collisions = []
     block = None
     cur = None
     expect_phase_eq = False
@@ -314,6 +321,12 @@ def parse_db(path):
                     continue
                 if not L:
                     continue
+                for old in [k for k in phases if k.lower() == cur["name"].lower()]:
+                    if old != cur["name"]:
+                        problems.append("phase %s is replaced by the later phase %s (names are case-insensitive)" % (old, cur["name"]))
+                        collisions.append((old, dict(phases[old]), cur["name"]))
+                    del phases[old]
+                phases[cur["name"]] = cur
                 cur["formula"] = L[0][1]
                 cur["fcoef"] = L[0][0]
                 cur["eq"] = [(c, n) for c, n in R] + [(-c, n) for c, n in L[1:]]
@@ -328,11 +341,6 @@ def parse_db(path):
             # one (llnl.dat: "Hf(g)" - hafnium - silently replaces "HF(g)" - hydrogen fluoride)
             cur = new_k()
             cur.update({"name": toks[0], "eq": None})
-            for old in [k for k in phases if k.lower() == toks[0].lower()]:
-                if old != toks[0] and phases[old].get("eq") is not None:
-                    problems.append("phase %s is replaced by the later phase %s (names are case-insensitive)" % (old, toks[0]))
-                del phases[old]
-            phases[toks[0]] = cur
             continue
         if block in ("NAMED_EXPRESSIONS", "NAMED_LOG_K", "NAMED_ANALYTICAL_EXPRESSION", "NAMED_ANALYTICAL_EXPRESSIONS"):
             opt = toks[0].lstrip("-").lower()
@@ -345,7 +353,8 @@ def parse_db(path):
             named[toks[0].lower()] = cur
             continue
     phases = {k: v for k, v in phases.items() if v.get("eq") is not None}
-    db = {"path": path, "masters": masters, "species": species, "phases": phases, "named": named, "order": order, "problems": problems}
+    db = {"path": path, "masters": masters, "species": species, "phases": phases, "named": named, "order": order, "problems": problems,
+          "collisions": collisions}
     finish(db)
     return db
 
